@@ -124,6 +124,14 @@ class simple_token(namedtuple("simple_token", "type,string")):
             return ast.literal_eval(self.string) == ast.literal_eval(
                 other.string
             ) and self.string.replace("'", '"') == other.string.replace("'", '"')
+        elif self.type == other.type == token.NUMBER:
+            # formatters normalize numbers (1e+100 -> 1e100)
+            try:
+                a = ast.literal_eval(self.string)
+                b = ast.literal_eval(other.string)
+            except (ValueError, SyntaxError):  # pragma: no cover
+                return super().__eq__(other)
+            return type(a) is type(b) and a == b
         else:
             return super().__eq__(other)
 
